@@ -359,7 +359,7 @@ META = {
     'required_covers': ['nontrivial', 'crash', 'handled-failure', 'late-yield', 'second-trigger-refused',
                         'second-trigger-before-processing', 'observed-without-probes'],
     'bounds': {'quick': 'one shared event or child process; <= 3 waiters (processes catching / not catching, plain callbacks) registering at '
-                        'symbolic instants; second succeed/fail attempt (before and after the first is processed, and on a pending Timeout); chains of <= 3 already-processed events; values symbolic Int',
+                        'symbolic instants; second succeed/fail attempt (before and after the first is processed, and on a pending Timeout); chains of <= 3 already-processed events; values symbolic Int; failure classes with custom constructors (TypeError / ValueError on their own args); probe-free observation on a third of the jobs',
                'thorough': '<= 5 waiters; double triggers with 3 waiters'},
     'assumptions': ['a plain callback does not handle a failure (only a waiting process does)',
                     'a callback cannot be registered on a processed event (callbacks is None): such registrations are skipped'],
